@@ -56,7 +56,7 @@ pub const KNOWN: &[(&str, &str, &str)] = &[
     ("K1", "conv=1 pfx=p is=h :: .a :host{color:red}", "`:host` that is not the FIRST token of the prelude (`.a :host{}`, `.a, :host{}`) is not recognised: the rule stays in the normal output and no warning is reported, although the property drops every `:host` combination with a warning"),
 ];
 
-const BOUND: &str = "12 configurations x { A: all sequences of <= 4 rules from 10 pieces at depth 0 and of <= 3 inside one at-rule chain of depth 1, 2, 3; B: all well-nested strings of <= 7 symbols over {:host rule, ordinary rule, :host combination, open at-rule, close} with depth <= 3, spellings rotating through 3/7/5 rule spellings (one ordinary rule with non-ASCII content) and 6 at-rule preludes; C: all sequences of <= 2 from 22 pieces (the 10 plus 12 probes) under 4 wrappers }";
+const BOUND: &str = "12 configurations x { A: all sequences of <= 4 rules from 10 pieces at depth 0 and of <= 3 inside one at-rule chain of depth 1, 2, 3, and of <= 2 inside chains of depth 6, 8, 12; B: all well-nested strings of <= 7 symbols over {:host rule, ordinary rule, :host combination, open at-rule, close} with depth <= 3, spellings rotating through 3/7/5 rule spellings (one ordinary rule with non-ASCII content) and 6 at-rule preludes; C: all sequences of <= 2 from 22 pieces (the 10 plus 12 probes) under 4 wrappers }";
 
 // ---------------------------------------------------------------- canonical token lists
 #[derive(Clone, Copy, PartialEq)]
@@ -443,6 +443,11 @@ pub fn search() -> Outcome {
     // A
     let mut ok = sequences(PIECES_A.len(), 4, |idx| eval(sheet_of(PIECES_A, idx, &[])));
     for chain in CHAINS_A { ok = ok && sequences(PIECES_A.len(), 3, |idx| eval(sheet_of(PIECES_A, idx, chain))); }
+    // deep chains: the same wrappers repeated to depth 6, 8 and 12 (the property holds at every nesting depth)
+    for depth in [6usize, 8, 12] {
+        let deep: Vec<&str> = (0..depth).map(|i| WRAPS[[0usize, 1, 2, 3, 5][i % 5]]).collect();
+        ok = ok && sequences(PIECES_A.len(), 2, |idx| eval(sheet_of(PIECES_A, idx, &deep)));
+    }
     // B
     if ok { for (i, shape) in shapes(7, 3).iter().enumerate() { if !eval(sheet_of_shape(shape, i)) { ok = false; break; } } }
     // C
